@@ -1397,6 +1397,30 @@ pub fn c16(tier: Tier) -> i32 {
     run_sys(&mut rep, &TomlMapSys { preserve_order: preserve_order_build() }, depth, cap);
     run_sys(&mut rep, &TableSys { values: vec![MV::Int(1), MV::Aot, MV::Tab] }, depth, cap);
     let _ = tier;
+    // toml::Map in its insertion-ordered configuration: every history of <= 4 calls over 4 keys, run by the
+    // cfg engine's binary built with `preserve_order`
+    {
+        let t0 = std::time::Instant::now();
+        match crate::c18::build("tm-preserve", "tm_parse tm_display tm_preserve").and_then(|exe| crate::c18::run("tm-preserve", &exe)) {
+            Err(e) => {
+                println!("MACHINERY-ERROR preserve_order build of the toml::Map search failed: {}", e.lines().last().unwrap_or(""));
+                return 2;
+            }
+            Ok(r) => {
+                let n = r.counts.get("tm.map.sorted-observation").copied().unwrap_or(0);
+                let mut acc = Acc::default();
+                acc.evals = n * 4;
+                acc.nontrivial_overflow = n;
+                acc.sample(|| "toml::Map[preserve_order]: Insert(c) ; Insert(a) ; EntryRemove(c) ; Insert(b)".to_string());
+                for v in r.viols.iter().filter(|v| v.contains("toml::Map history")) {
+                    acc.viol("U-hist", format!("toml::Map[preserve_order]: {}", v.chars().take(200).collect::<String>()), None, v.clone());
+                }
+                rep.transitions = Some(rep.transitions.unwrap_or(0) + n * 4);
+                rep.traces_validated += n * 4;
+                rep.absorb("U-hist(toml::Map, preserve_order)", &format!("{} complete histories of 4 calls over 4 keys from 2 start maps (stateless enumeration in the preserve_order build)", n), n * 4, true, t0, acc);
+            }
+        }
+    }
     rep.exhaustive = rep.caps.is_empty();
     rep.finish()
 }
